@@ -801,7 +801,7 @@ impl<'a> Ctx<'a> {
     }
 
     fn comp(&mut self, depth: usize) -> Node {
-        let mut kinds = vec!["plain", "plain", "multi", "mchild", "styled"];
+        let mut kinds = vec!["plain", "plain", "multi", "mchild", "styled", "sslots"];
         if self.f.model && !self.in_template {
             kinds.push("mnest");
         }
@@ -904,6 +904,14 @@ impl<'a> Ctx<'a> {
                 let o = if self.r.chance(0.7) { id("obj") } else { self.object_leaf() };
                 attrs.push(Attr { name: "model:p".into(), val: AttrVal::Bind(o) });
                 Node::El { tag: "mnest".into(), attrs, children: vec![] }
+            }
+            "sslots" => {
+                // a single-slot child with one <slot> per item of a keyed list: the first slot of
+                // the tree is the one in use, whichever item it belongs to after a re-order
+                let l = id("list");
+                attrs.push(Attr { name: "items".into(), val: AttrVal::Bind(l) });
+                let children = vec![Node::Text(self.text_parts()), Node::El { tag: "view".into(), attrs: vec![], children: vec![Node::Text(self.text_parts())] }];
+                Node::El { tag: "sslots".into(), attrs, children }
             }
             "mobs" => {
                 // a child whose data observer clamps the model-bound `val` to `max`: a host update
@@ -1304,6 +1312,7 @@ pub fn catalogue_file(kind: &str) -> TFile {
         "multi" => "<view id=\"sa\"><slot name=\"a\"/></view><view id=\"sb\"><slot name=\"b\"/></view><text>M:{{p}}</text><slot/>",
         "mchild" => "<text>V:{{val}}</text>",
         "mobs" => "<text>O:{{val}}:{{max}}</text>",
+        "sslots" => "<block wx:for=\"{{items}}\" wx:key=\"k\"><view id=\"w{{item.k}}\"><slot/></view></block><text>Z</text>",
         "dyn" => "<text>D:{{p}}</text><block wx:for=\"{{items}}\" wx:key=\"k\"><slot sv=\"{{item}}\" si=\"{{index}}\"/></block>",
         "dynnk" => "<text>E:{{p}}</text><block wx:for=\"{{items}}\"><slot sv=\"{{item}}\" si=\"{{index}}\"/></block>",
         "dynself" => "<text>S:{{own.length}}:{{p}}</text><block wx:for=\"{{own}}\" wx:key=\"k\"><slot sv=\"{{item}}\" si=\"{{index}}\" sl=\"{{item.sub}}\"/></block>",
@@ -1325,6 +1334,7 @@ pub fn catalogue_component(kind: &str) -> Value {
         "dynnk" => json!({"is": "dynnk", "path": "comp/dynnk", "options": {"dynamicSlots": true}, "properties": {"items": {"type": "any", "value": []}, "p": {"type": "any", "value": null}}}),
         "dynself" => json!({"is": "dynself", "path": "comp/dynself", "options": {"dynamicSlots": true}, "properties": {"p": {"type": "any", "value": null}}, "data": {"own": [{"k": 1, "v": "o1", "w": "p1", "sub": [{"k": 11, "v": "x1"}]}, {"k": 2, "v": "o2", "w": "p2", "sub": []}]}}),
         "mnest" => json!({"is": "mnest", "path": "comp/mnest", "properties": {"p": {"type": "any", "value": null}}}),
+        "sslots" => json!({"is": "sslots", "path": "comp/sslots", "properties": {"items": {"type": "any", "value": []}}}),
         "mobs" => json!({"is": "mobs", "path": "comp/mobs", "properties": {"val": {"type": "any", "value": null}, "max": {"type": "any", "value": null}}, "clamp": {"prop": "val", "max": "max"}}),
         "dynn" => json!({"is": "dynn", "path": "comp/dynn", "options": {"dynamicSlots": true}, "properties": {"p": {"type": "any", "value": null}}}),
         "dynt" => json!({"is": "dynt", "path": "comp/dynt", "options": {"dynamicSlots": true}, "properties": {"p": {"type": "any", "value": null}}}),
